@@ -18,6 +18,8 @@ SPEC = os.path.join(VERIF, "spec")
 OUT = os.path.join(VERIF, "out")
 EVID = os.path.join(VERIF, "evidence")
 CORPUS = os.path.join(VERIF, "corpus")
+# the tree under test: /repo, or the snapshot of a `vp run --with-repo` background run
+REPO = os.environ.get("VP_RUN_REPO", "/repo")
 KNOWN = os.path.join(VERIF, "known_findings.json")
 TLC_WORKERS = int(os.environ.get("VERIF_TLC_WORKERS", "12"))
 
@@ -49,6 +51,9 @@ def build_harness(profile="release"):
         return _built[profile]
     t0 = time.time()
     flag = "--release" if profile == "release" else "--profile " + profile
+    if REPO != "/repo":
+        # a `vp run --with-repo` snapshot: build against that copy instead of /repo (cargo path override)
+        flag += " --config 'paths=[\"%s/lib\"]'" % REPO
     r = sh("cargo build --offline %s 2>&1" % flag, cwd=HARNESS, timeout=1200)
     if r.returncode != 0:
         sys.stdout.write(r.stdout[-4000:])
@@ -280,7 +285,7 @@ def fixtures_file(path):
     import glob
     n = 0
     with open(path, "w") as out:
-        for f in sorted(glob.glob("/repo/tests/fixtures/**/*.geojson", recursive=True)):
+        for f in sorted(glob.glob(REPO + "/tests/fixtures/**/*.geojson", recursive=True)):
             if "/benchmarks/" in f:
                 continue
             try:
@@ -293,7 +298,7 @@ def fixtures_file(path):
                     g = ft["geometry"]
                     polys = [g["coordinates"]] if g["type"] == "Polygon" else g["coordinates"]
                     mps.append([[[[float(q[0]), float(q[1])] for q in ring] for ring in poly] for poly in polys])
-                out.write(json.dumps({"name": os.path.relpath(f, "/repo/tests/fixtures"), "A": mps[0], "B": mps[1]}) + "\n")
+                out.write(json.dumps({"name": os.path.relpath(f, REPO + "/tests/fixtures"), "A": mps[0], "B": mps[1]}) + "\n")
                 n += 1
             except Exception:
                 continue
